@@ -12,7 +12,6 @@ import (
 	"strings"
 
 	api "k8s.io/api/core/v1"
-	networking "k8s.io/api/networking/v1"
 	"sigs.k8s.io/controller-runtime/pkg/client"
 
 	hatypes "github.com/jcmoraisjr/haproxy-ingress/pkg/haproxy/types"
@@ -215,7 +214,6 @@ func genAlias(rng *rand.Rand, i int) (string, interface{}, bool, error) {
 		queries = append(queries, hx.Tuple(hx.Str(a), obs))
 		jq[a] = obs
 	}
-	_ = networking.PathTypePrefix
 	return fmt.Sprintf("CAlias @ID@ %s %s %s", hx.List(visit), hx.List(roots), hx.List(queries)),
 		map[string]interface{}{"host_alias": jv, "answers": jq}, shared, nil
 }
